@@ -263,27 +263,20 @@ Proof. intros. rewrite oadd_spec by (rewrite M64; assumption). reflexivity. Qed.
 Lemma proposer_payout_spec pct fees bonus sink smin :
   pct < W64 -> fees < W64 -> bonus < W64 -> sink < W64 -> smin < W64 ->
   proposer_payout pct fees bonus sink smin =
-    if W64 <=? fees * pct / 100 then PPPanic
+    if 100 <? pct then PPPanic
     else if W64 <=? payout_cap pct fees bonus then PPErrBonus
     else PPOk (payout_limit pct fees bonus sink smin).
 Proof.
   intros Hp Hf Hb Hs Hm. unfold proposer_payout.
+  destruct (N.ltb_spec 100 pct) as [Hgt|Hle]; [reflexivity|].
   assert (H100 : 100 < W64) by reflexivity.
-  pose proof (divvy_none_iff pct 100 fees Hp H100 Hf) as Hnone.
-  destruct (N.leb_spec W64 (fees * pct / 100)) as [Hge|Hlt].
-  - replace (divvy pct 100 fees) with (@None (N * N)); [reflexivity|].
-    symmetry. apply Hnone. right. exact Hge.
-  - destruct (divvy pct 100 fees) as [[inc rest]|] eqn:Hd.
-    2:{ exfalso. destruct (proj1 Hnone eq_refl) as [H|H]; [discriminate|lia]. }
-    assert (Hinc : inc = fees * pct / 100).
-    { unfold divvy, Muldiv in Hd.
-      pose proof (muldiv_exact fees pct 100 Hf Hp H100) as Hx.
-      destruct (muldiv fees pct 100) as [[qq r] o]. destruct Hx as [_ [_ [Hff _]]].
-      destruct o; [discriminate|]. destruct (Hff eq_refl) as [Hq _]. inversion Hd. subst. reflexivity. }
-    subst inc. rewrite oadd64 by assumption. unfold payout_cap.
-    destruct (N.leb_spec W64 (fees * pct / 100 + bonus)) as [H|H]; [reflexivity|].
-    rewrite N.mod_small by exact H. unfold payout_limit, payout_cap.
-    rewrite available_balance_spec by assumption. reflexivity.
+  destruct (divvy_exact pct 100 fees Hle ltac:(discriminate) H100 Hf) as [inc [rest [Hd [Hinc _]]]].
+  rewrite Hd. subst inc. rewrite oadd64; [|
+    apply (N.le_lt_trans _ fees); [apply N.div_le_upper_bound; [discriminate|nia]|exact Hf] | assumption].
+  unfold payout_cap.
+  destruct (N.leb_spec W64 (fees * pct / 100 + bonus)) as [H|H]; [reflexivity|].
+  rewrite N.mod_small by exact H. unfold payout_limit, payout_cap.
+  rewrite available_balance_spec by assumption. reflexivity.
 Qed.
 
 (* ---------- validateForPayouts ---------- *)
@@ -297,7 +290,7 @@ Definition limit_of (i : payout_in) : N :=
 Lemma validate_enabled_iff i : pi_bounded i -> pi_enabled i = true ->
   (validate_for_payouts i = VPOk <->
    pi_hdr_fees i = pi_state_fees i /\
-   pi_hdr_fees i * pi_pct i / 100 < W64 /\
+   pi_pct i <= 100 /\
    payout_cap (pi_pct i) (pi_hdr_fees i) (pi_bonus i) < W64 /\
    pi_payout i <= limit_of i /\
    (pi_generate i = true \/
@@ -308,7 +301,7 @@ Proof.
   destruct (N.eqb_spec (pi_hdr_fees i) (pi_state_fees i)) as [Heq|Hne]; cbn [negb].
   2:{ split; [discriminate|]. intros [H _]. contradiction. }
   rewrite proposer_payout_spec by assumption.
-  destruct (N.leb_spec W64 (pi_hdr_fees i * pi_pct i / 100)) as [H1|H1].
+  destruct (N.ltb_spec 100 (pi_pct i)) as [H1|H1].
   { split; [discriminate|]. intros [_ [H _]]. lia. }
   destruct (N.leb_spec W64 (payout_cap (pi_pct i) (pi_hdr_fees i) (pi_bonus i))) as [H2|H2].
   { split; [discriminate|]. intros [_ [_ [H _]]]. lia. }
@@ -364,9 +357,7 @@ Proof.
   unfold validate_for_payouts, limit_of in *. rewrite Hen. cbn [negb].
   rewrite (proj2 (N.eqb_eq _ _) Heq). cbn [negb].
   rewrite proposer_payout_spec by assumption.
-  assert (Hdiv : pi_hdr_fees i * pi_pct i / 100 <= pi_hdr_fees i).
-  { apply N.div_le_upper_bound; [discriminate|]. nia. }
-  destruct (N.leb_spec W64 (pi_hdr_fees i * pi_pct i / 100)); [lia|].
+  destruct (N.ltb_spec 100 (pi_pct i)); [lia|].
   destruct (N.leb_spec W64 (payout_cap (pi_pct i) (pi_hdr_fees i) (pi_bonus i))); [lia|].
   rewrite (proj2 (N.ltb_lt _ _) Hgt). reflexivity.
 Qed.
